@@ -101,7 +101,7 @@ Lemma shift_filter_commute k lo hi l :
 Proof.
   induction l as [|n r IH]; [reflexivity|]. cbn [map filter].
   assert (note_in_range lo hi (note_shift k n) = note_keep k lo hi n) as ->.
-  { unfold note_in_range, note_keep, note_shift. destruct (n_drum n) eqn:E; cbn; [rewrite E|]; reflexivity. }
+  { unfold note_in_range, note_keep, note_shift. destruct (n_drum n) eqn:E; cbn; rewrite ?E; reflexivity. }
   destruct (note_keep k lo hi n); cbn [map]; rewrite IH; reflexivity.
 Qed.
 
@@ -387,8 +387,6 @@ Theorem squash_spec lo hi key evs :
   end.
 Proof.
   cbn zeta. unfold mel_squash. destruct key as [to_key|]; [|split; reflexivity].
-  induction evs as [|e r IH] using rev_ind; [cbn; split; reflexivity|].
-  clear IH. set (evs := r ++ [e]).
   set (p := fun e0 : Z => (MIN_MIDI_PITCH <=? e0) && (e0 <=? MAX_MIDI_PITCH)).
   destruct (filter p evs) as [|x f] eqn:Ef.
   - assert (existsb p evs = false) as ->.
